@@ -45,6 +45,19 @@ def check(ctx):
         ctx.ob("Q2", "%s the PINGREQ packet is encoded once in the constructor" % cq,
                (isinstance(stored, tuple) and stored[0] == "encres" and stored[1] == ping) or in_encoded, where=cls.module.path,
                construct="%s/pingreq/stored" % cls.qual, nontrivial=False, msg="stored PINGREQ bytes are %s" % show(stored))
+        # "with keepalive k": the k the CONNACK code reads from the CONNECT request is the one connect() was called with - nothing else
+        # (a protocol-level default, the keepalive of an earlier connection) is mixed in on the way
+        for tr in contexts(cat):
+            if tr.kind != "API" or tr.name != "connect":
+                continue
+            news = {e.a["obj"] for e in tr.events if e.kind == "NEW" and (e.a.get("cls") or "").endswith(".CONNECT")}
+            sets = [e for e in tr.events if e.kind == "SETATTR" and e.a["obj"] in news and e.a["field"] == "keepalive"]
+            for e in sets[-1:]:       # (the constructor's default comes first; what counts is what the request holds when it is handed on)
+                if True:
+                    ctx.ob("Q1", "%s the keepalive of the CONNECT is connect()'s argument (%s)" % (cq, tr.label()), e.a["val"] == ("param", "keepalive"),
+                           where=where(e), function=e.func, construct="%s/keepalive-source" % e.func, nontrivial=False,
+                           msg="the CONNECT request's keepalive is %s, not the keepalive argument alone: connect(keepalive=0) can start the "
+                               "periodic PINGREQ (or a given k be replaced by another period)" % show(e.a["val"]))
         # ---------------- Q1 ----------------
         starts = []
         for tr in contexts(cat):
